@@ -87,6 +87,57 @@ func numberStateIgnoresTheSign(c *core.Ctx, p *load.Prog) {
 		c.Undecide("numberToken: the parameter holding the bytes already read was not found")
 		return
 	}
+	// the token under construction holds the same bytes: tk := token{concrete: concrete}
+	textFields := map[types.Object]string{}
+	ast.Inspect(fd.Body, func(n ast.Node) bool {
+		as, ok := n.(*ast.AssignStmt)
+		if !ok || len(as.Lhs) != len(as.Rhs) {
+			return true
+		}
+		for i, r := range as.Rhs {
+			cl, ok := ast.Unparen(r).(*ast.CompositeLit)
+			if !ok {
+				continue
+			}
+			lid, ok := as.Lhs[i].(*ast.Ident)
+			if !ok {
+				continue
+			}
+			for _, el := range cl.Elts {
+				if kv, ok := el.(*ast.KeyValueExpr); ok {
+					if vid, ok := ast.Unparen(kv.Value).(*ast.Ident); ok && info.ObjectOf(vid) == entry {
+						if kid, ok := kv.Key.(*ast.Ident); ok {
+							textFields[info.ObjectOf(lid)] = kid.Name
+						}
+					}
+				}
+			}
+		}
+		return true
+	})
+	isText := func(e ast.Expr) bool {
+		switch x := ast.Unparen(e).(type) {
+		case *ast.Ident:
+			return info.ObjectOf(x) == entry
+		case *ast.SelectorExpr:
+			if id, ok := ast.Unparen(x.X).(*ast.Ident); ok {
+				if f, ok := textFields[info.ObjectOf(id)]; ok && f == x.Sel.Name {
+					return true
+				}
+			}
+		}
+		return false
+	}
+	mentionsText := func(e ast.Node) bool {
+		found := false
+		ast.Inspect(e, func(n ast.Node) bool {
+			if ex, ok := n.(ast.Expr); ok && isText(ex) {
+				found = true
+			}
+			return !found
+		})
+		return found
+	}
 	mentionsEntry := func(e ast.Expr) bool {
 		found := false
 		ast.Inspect(e, func(n ast.Node) bool {
@@ -117,12 +168,12 @@ func numberStateIgnoresTheSign(c *core.Ctx, p *load.Prog) {
 		switch x := e.(type) {
 		case *ast.CallExpr:
 			if wire.Canon(x.Fun) == "len" && len(x.Args) == 1 {
-				if id, ok := ast.Unparen(x.Args[0]).(*ast.Ident); ok && info.ObjectOf(id) == entry {
+				if isText(x.Args[0]) {
 					return val{n: int64(len(in)), ok: true}
 				}
 			}
 		case *ast.IndexExpr:
-			if id, ok := ast.Unparen(x.X).(*ast.Ident); ok && info.ObjectOf(id) == entry {
+			if isText(x.X) {
 				// an index from the front addresses the sign or the digit
 				// depending on the shape: that is the dependence looked for;
 				// an index from the end (len-1) addresses the digit in both
@@ -140,6 +191,20 @@ func numberStateIgnoresTheSign(c *core.Ctx, p *load.Prog) {
 				}
 			}
 		case *ast.BinaryExpr:
+			// string(text) == "0"
+			if x.Op == token.EQL || x.Op == token.NEQ {
+				for k, side := range []ast.Expr{x.X, x.Y} {
+					other := []ast.Expr{x.Y, x.X}[k]
+					conv, ok := ast.Unparen(side).(*ast.CallExpr)
+					if !ok || len(conv.Args) != 1 || !info.Types[conv.Fun].IsType() || !isText(conv.Args[0]) {
+						continue
+					}
+					if tv := info.Types[other]; tv.Value != nil && tv.Value.Kind() == constant.String {
+						eq := constant.StringVal(tv.Value) == string(in)
+						return val{b: eq == (x.Op == token.EQL), ok: true, isBool: true}
+					}
+				}
+			}
 			a, b := eval(x.X, in), eval(x.Y, in)
 			switch x.Op {
 			case token.LAND:
@@ -210,6 +275,63 @@ func numberStateIgnoresTheSign(c *core.Ctx, p *load.Prog) {
 			}
 		}
 	}
+	// the same for what the scan loop asks of the text read so far: on its
+	// first cycle that text is the entry bytes, and a test of its length, of a
+	// byte counted from the front, or of the text as a whole comes out
+	// differently for "-0" than for "0" (`len(tk.concrete) == 1 && b == 'x'`,
+	// `string(tk.concrete) == "0"`)
+	var atoms func(e ast.Expr, out *[]ast.Expr)
+	atoms = func(e ast.Expr, out *[]ast.Expr) {
+		e = ast.Unparen(e)
+		if be, ok := e.(*ast.BinaryExpr); ok && (be.Op == token.LAND || be.Op == token.LOR) {
+			atoms(be.X, out)
+			atoms(be.Y, out)
+			return
+		}
+		if ue, ok := e.(*ast.UnaryExpr); ok && ue.Op == token.NOT {
+			atoms(ue.X, out)
+			return
+		}
+		*out = append(*out, e)
+	}
+	nc := 0
+	ast.Inspect(fd.Body, func(m ast.Node) bool {
+		ifs, ok := m.(*ast.IfStmt)
+		if !ok {
+			return true
+		}
+		var as []ast.Expr
+		atoms(ifs.Cond, &as)
+		for _, a := range as {
+			if !mentionsText(a) {
+				continue
+			}
+			nc++
+			bad, unsure := "", false
+			for _, d := range []byte{'0', '7'} {
+				plain, signed := eval(a, []byte{d}), eval(a, []byte{'-', d})
+				if !plain.ok || !signed.ok {
+					unsure = true
+					continue
+				}
+				if plain != signed {
+					bad = fmt.Sprintf("with %q read it is %v, with %q it is %v", string([]byte{d}), showVal(plain.isBool, plain.b, plain.n), string([]byte{'-', d}), showVal(signed.isBool, signed.b, signed.n))
+				}
+			}
+			key := fmt.Sprintf("numberToken's test %s does not depend on the sign of the literal", wire.Canon(a))
+			switch {
+			case bad != "":
+				c.Check("R7b", key, p.Pos(a.Pos()), false,
+					bad+": what follows a negative literal's first digit (a hex marker, a decimal point) is accepted or refused differently from the same literal without the sign — `-0x10` is not read as a number")
+			case unsure:
+				c.Undecide("C11/R7b: numberToken tests the text read so far with %s, which the rule cannot evaluate for the two entry shapes", wire.Canon(a))
+			default:
+				c.Check("R7b", key, p.Pos(a.Pos()), true, "")
+			}
+		}
+		return true
+	})
+	c.Count("number_tests_of_text_so_far", nc)
 	c.Check("R7b", "numberToken's state does not depend on the sign of the literal (scan complete)", p.Pos(fd.Pos()), true, "")
 	c.Count("number_state_from_entry_bytes", n)
 }
